@@ -57,6 +57,7 @@ fn one(ctx: &Ctx, rep: &mut Report, id: usize, cfg: Cfg, k: usize) {
     } else {
         roles.push((None, VerifyAction::RecoverAndVerify, "public/RecoverAndVerify"));
     }
+    let alteration_names: Vec<String> = muts.iter().map(|m| m.name.clone()).collect();
     for mu in muts {
         if cfg.mn() == 1 && matches!(mu.alter, Alter::Proof(_)) {
             // zero folding rounds: proofs cannot be rebuilt through the codec (C15 known finding)
@@ -106,7 +107,8 @@ fn one(ctx: &Ctx, rep: &mut Report, id: usize, cfg: Cfg, k: usize) {
             }
         }
     }
-    rep.sample(GROUP, json!({"case": case.json(), "roles": roles.iter().map(|r| r.2).collect::<Vec<_>>()}));
+    rep.sample(GROUP, json!({"case": case.json(), "roles": roles.iter().map(|r| r.2).collect::<Vec<_>>(), "alterations": alteration_names.len(),
+        "alterations_sample": alteration_names.iter().step_by((alteration_names.len() / 14).max(1)).take(16).collect::<Vec<_>>()}));
 }
 
 fn in_batch(ctx: &Ctx, rep: &mut Report, id: usize, b: usize) {
